@@ -104,8 +104,10 @@ def _wrap(v, ty):
 
 
 class Interp:
-    def __init__(self, prog, hooks=None, fields=None, max_steps=200000, summarize_loops=False):
+    def __init__(self, prog, hooks=None, fields=None, max_steps=200000, summarize_loops=False,
+                 globals_=None):
         self.prog = prog
+        self.globals = globals_ or {}
         self.hooks = hooks or {}
         self.fields = fields or {}        # member field name -> value (for n->rn etc.)
         self.steps = 0
@@ -252,6 +254,8 @@ class Interp:
             return v != 0
         if isinstance(v, Ptr):
             return True
+        if isinstance(v, dict):
+            return True
         if v is None:
             return False
         raise Unsupported("truth of %r" % (v,))
@@ -272,6 +276,8 @@ class Interp:
                 return e["cv"]
             if e["name"] in env:
                 return env[e["name"]]
+            if e["name"] in self.globals:
+                return self.globals[e["name"]]
             if "cv" in e:
                 return e["cv"]
             return OPAQUE
@@ -283,6 +289,9 @@ class Interp:
         if k == "member":
             if e["field"] in self.fields:
                 return self.fields[e["field"]]
+            b = self.expr(f, e["base"], env, depth)
+            if isinstance(b, dict) and e["field"] in b:
+                return b[e["field"]]
             return OPAQUE
         if k == "sub":
             b = self.expr(f, e["base"], env, depth)
@@ -306,7 +315,7 @@ class Interp:
                 return self._incdec(f, e, env, depth)
             v = self.expr(f, e["e"], env, depth)
             if op == "&":
-                return OPAQUE
+                return v if isinstance(v, dict) else OPAQUE
             if isinstance(v, Lin):
                 if op == "-":
                     return v.scale(-1)
